@@ -78,12 +78,16 @@ def mk(spec):
         return tuple(mk(x) for x in spec[1])
     if k == "set":
         return set(mk(x) for x in spec[1])
+    if k == "frozenset":
+        return frozenset(mk(x) for x in spec[1])
     if k == "dict":
         return {mk(a): mk(b) for a, b in spec[1]}
     if k == "np":
         return getattr(numpy, spec[1])(mk(spec[2]) if isinstance(spec[2], list) else spec[2])
     if k == "nparr":
         return numpy.array([mk(x) for x in spec[2]], dtype=spec[1])
+    if k == "nparr0":
+        return numpy.array(spec[2], dtype=spec[1])
     if k == "complex":
         return complex(spec[1][0], spec[1][1])
     raise ValueError("bad cell spec %r" % (spec,))
@@ -166,6 +170,150 @@ def tag_cell(v):
     return ["other", str(v)]
 
 
+# --------------------------------------------------------------------------- value kinds (Model/PyKinds.lean)
+
+
+def kind_of(v):
+    """("py"|"np", kind name of Model/PyKinds.lean) of a Python value, or None when the kind is not modelled."""
+    import numpy
+
+    if isinstance(v, numpy.ndarray):
+        if v.ndim >= 1:
+            return ("np", "ndarray")
+        return ("np", "ndarray0") if numpy.issubdtype(v.dtype, numpy.integer) else None
+    if isinstance(v, numpy.generic):
+        if isinstance(v, numpy.timedelta64):
+            if numpy.isnat(v):
+                return ("np", "td64NaT")
+            return ("np", "td64Cal" if numpy.datetime_data(v.dtype)[0] in ("Y", "M") else "td64")
+        if isinstance(v, numpy.datetime64):
+            return ("np", "dt64")
+        if isinstance(v, numpy.bool_):
+            return ("np", "npBool")
+        if isinstance(v, numpy.integer):
+            return ("np", "npInt")
+        if isinstance(v, numpy.floating):
+            return ("np", "npFloatNaN" if numpy.isnan(v) else "npFloat")
+        if isinstance(v, numpy.complexfloating):
+            return ("np", "npComplex")
+        if isinstance(v, numpy.str_):
+            return ("np", "npStr")
+        if isinstance(v, numpy.bytes_):
+            return ("np", "npBytes")
+        return None
+    t = type(v)
+    if v is None:
+        return ("py", "none")
+    if t is float:
+        return ("py", "floatNaN" if v != v else "float")
+    if t is decimal.Decimal:
+        return ("py", "decSNaN" if v.is_snan() else ("decNaN" if v.is_nan() else "dec"))
+    if t.__name__ == "MonthDayNano":
+        return ("py", "mdn")
+    if t.__name__ == "SimpleNamespace":
+        return ("py", "ns") if all(hasattr(v, a) for a in ("days", "months", "nanoseconds")) else None
+    exact = {bool: "bool", int: "int", str: "str", datetime.datetime: "datetime", datetime.date: "date", datetime.time: "time",
+             bytes: "bytes", bytearray: "bytearray", dict: "dict", datetime.timedelta: "timedelta", list: "list", tuple: "tuple",
+             set: "set", frozenset: "frozenset", complex: "complex"}
+    return ("py", exact[t]) if t in exact else None
+
+
+def kind_samples():
+    import numpy
+    import pyarrow
+    from types import SimpleNamespace
+
+    D = decimal.Decimal
+    py = {
+        "none": [None], "bool": [True, False], "int": [0, -5, 10**30], "float": [0.0, 1.5, float("inf"), -0.0],
+        "floatNaN": [float("nan")], "dec": [D("1.50"), D("Infinity"), D("-0")], "decNaN": [D("NaN"), D("-NaN")],
+        "decSNaN": [D("sNaN"), D("-sNaN123")], "str": ["", "a\n"], "datetime": [datetime.datetime(2020, 1, 2, 3, 4, 5)],
+        "date": [datetime.date(2020, 1, 2)], "time": [datetime.time(1, 2, 3)], "bytes": [b"", b"\xff"], "bytearray": [bytearray(b"ab")],
+        "dict": [{}, {1: 2}], "timedelta": [datetime.timedelta(0), datetime.timedelta(days=-1, microseconds=5)],
+        "mdn": [pyarrow.MonthDayNano((1, 2, 3))], "ns": [SimpleNamespace(months=1, days=2, nanoseconds=3.0)],
+        "list": [[], [1]], "tuple": [(), (1,)], "set": [set(), {1}], "frozenset": [frozenset({1})], "complex": [1j],
+    }
+    np_ = {
+        "ndarray": [numpy.array([1, 2]), numpy.array([[1.5, 2.5], [3.5, 4.5]]), numpy.array(["a", "b"])], "ndarray0": [numpy.array(5)],
+        "td64": [numpy.timedelta64(5, "s"), numpy.timedelta64(-3, "D"), numpy.timedelta64(7, "ns")],
+        "td64NaT": [numpy.timedelta64("NaT", "s"), numpy.timedelta64("NaT", "M")], "td64Cal": [numpy.timedelta64(3, "M"), numpy.timedelta64(2, "Y")],
+        "dt64": [numpy.datetime64("2020-01-01"), numpy.datetime64("NaT")], "npInt": [numpy.int64(3), numpy.uint8(200), numpy.int8(-1)],
+        "npFloat": [numpy.float64(1.5), numpy.float16(0.5), numpy.float32("inf")], "npFloatNaN": [numpy.float64("nan"), numpy.float32("nan")],
+        "npBool": [numpy.bool_(True), numpy.bool_(False)], "npComplex": [numpy.complex128(1 + 2j)], "npStr": [numpy.str_("ab")],
+        "npBytes": [numpy.bytes_(b"ab")],
+    }
+    return py, np_
+
+
+def check_py_facts(ctx):
+    """The tables of Model/PyKinds.lean (class hierarchy, attributes, math.isnan, iterability, numpy's type lattice,
+    the result kind of the conversions the extracted mapper uses) are parameters of the model: compare them with the
+    interpreter.  A difference is an infrastructure error, never a violation."""
+    import math
+
+    import numpy
+
+    warnings.filterwarnings("ignore")
+    out = ctx.model.one("C18 pyfacts")
+    if not out.startswith("ok"):
+        raise InfraError("model rejected pyfacts: %r" % out[:200])
+    pyt, npt = wire.dec_all(out[3:])
+    py, np_ = kind_samples()
+    ns = {"datetime": datetime, "decimal": decimal, "numpy": numpy}
+
+    def attempt(f):
+        try:
+            return ["ok", bool(f())]
+        except Exception as e:  # noqa
+            return ["err", type(e).__name__]
+
+    bad = []
+    for name, classes, attrs, isnan, iterable in pyt:
+        for v in py[name]:
+            if kind_of(v) != ("py", name):
+                bad.append(("kind_of", name, repr(v)))
+            for cn, want in classes:
+                if isinstance(v, eval(cn, ns)) != want:
+                    bad.append(("isinstance", name, cn))
+            for an, want in attrs:
+                if hasattr(v, an) != want:
+                    bad.append(("hasattr", name, an))
+            if attempt(lambda: math.isnan(v)) != isnan:
+                bad.append(("isnan", name, attempt(lambda: math.isnan(v)), isnan))
+            if (attempt(lambda: iter(v) is not None)[0] == "ok") != iterable:
+                bad.append(("iter", name))
+    conv = {"tolist": lambda v: v.tolist(), "int": int, "float": float, "bool": bool, "list": list, "str": str, "none": lambda v: None}
+    lines, keys = [], []
+    for name, subs, is_arr, is_gen, is_td, isnat, cal in npt:
+        for v in np_[name]:
+            if kind_of(v) != ("np", name):
+                bad.append(("kind_of", name, repr(v)))
+            for cn, want in subs:
+                if name != "ndarray" and bool(numpy.issubdtype(v.dtype, getattr(numpy, cn))) != want:  # an array's dtype varies
+                    bad.append(("issubdtype", name, cn))
+            if [isinstance(v, numpy.ndarray), isinstance(v, numpy.generic), isinstance(v, numpy.timedelta64)] != [is_arr, is_gen, is_td]:
+                bad.append(("numpy isinstance", name))
+            if name != "dt64" and attempt(lambda: numpy.isnat(v)) != isnat:  # datetime64 may be NaT: not tested by the mapper
+                bad.append(("isnat", name, attempt(lambda: numpy.isnat(v)), isnat))
+            if name != "td64NaT" and attempt(lambda: numpy.datetime_data(v.dtype)[0] in ("Y", "M")) != cal:  # NaT has any unit
+                bad.append(("datetime_data", name, attempt(lambda: numpy.datetime_data(v.dtype)[0] in ("Y", "M")), cal))
+        lines.append("C18 fmtnp " + wire.line(name))
+        keys.append(name)
+    for name, o in zip(keys, ctx.model.batch(lines)):
+        m = wire.dec_all(o[3:])
+        if m[1][0] == "ok" and m[1][2] in conv:  # the conversion the extracted mapper applies to this kind
+            for v in np_[name]:
+                try:
+                    got = kind_of(conv[m[1][2]](v))
+                except Exception as e:  # noqa
+                    got = ("raises", type(e).__name__)
+                if got != ("py", m[1][1]):
+                    bad.append(("conversion", name, m[1][2], got, m[1][1]))
+    if bad:
+        raise InfraError("Model/PyKinds.lean (facts about Python / numpy, a parameter) differs from the interpreter: %r" % bad[:8])
+    ctx.hit("pyfacts-checked:%d-kinds" % (len(pyt) + len(npt)))
+
+
 # --------------------------------------------------------------------------- frames
 
 
@@ -181,8 +329,10 @@ def build_schema(case):
     from orso.types import OrsoTypes
 
     cols, texts = [], []
-    for n, t in zip(names, case["coltypes"]):
-        col = FlatColumn(name=n, type=t) if t else FlatColumn(name=n)
+    aliases = case.get("aliases") or [[] for _ in names]
+    for n, t, al in zip(names, case["coltypes"], aliases):
+        kw = {"aliases": list(al)} if al else {}
+        col = FlatColumn(name=n, type=t, **kw) if t else FlatColumn(name=n, **kw)
         cols.append(col)
         # the text the statement asks for ("types when asked"): the column's declared type
         if col.type == OrsoTypes.ARRAY and col.element_type is not None:
@@ -203,6 +353,60 @@ def build_frame(case, rows):
     return DataFrame(rows=list(rows), schema=schema)
 
 
+class fake_notebook:
+    """`DataFrame.__str__` / `__repr__` ask IPython whether they run in a notebook; IPython is not installed here, so the
+    notebook branch (html_table + display(HTML(...))) is reached with a stand-in module that records what is displayed."""
+
+    def __enter__(self):
+        import sys
+        import types
+
+        self.shown = []
+        ip, ipd = types.ModuleType("IPython"), types.ModuleType("IPython.display")
+        ip.get_ipython = lambda: object()
+        ipd.HTML = lambda text: ("html", text)
+        ipd.display = self.shown.append
+        ip.display = ipd
+        self.saved = {k: sys.modules.get(k) for k in ("IPython", "IPython.display")}
+        sys.modules["IPython"], sys.modules["IPython.display"] = ip, ipd
+        return self
+
+    def __exit__(self, *a):
+        import sys
+
+        for k, v in self.saved.items():
+            if v is None:
+                sys.modules.pop(k, None)
+            else:
+                sys.modules[k] = v
+
+
+def render_obj(df, case, via, colorize=False):
+    """One rendering of an existing frame object."""
+    from orso.display import ascii_table
+
+    if via == "ascii":
+        return ascii_table(df, limit=case["limit"], display_width=case.get("dw", 300), max_column_width=case.get("maxcol", 30),
+                           colorize=colorize, top_and_tail=case.get("tt", True), show_types=case.get("show_types", False))
+    if via == "display":
+        return df.display(limit=case["limit"], display_width=case.get("dw", 300), max_column_width=case.get("maxcol", 30),
+                          colorize=colorize, show_types=case.get("show_types", False))
+    if via == "markdown":
+        return df.markdown(limit=case["limit"], max_column_width=case.get("maxcol", 30))
+    if via == "str":
+        return str(df)
+    if via == "repr":
+        return repr(df)
+    if via == "notebook":
+        with fake_notebook() as nb:
+            out = str(df)
+            rep = repr(df)
+        if out != "" or rep != "" or len(nb.shown) != 2 or any(not (isinstance(x, tuple) and isinstance(x[1], str)) for x in nb.shown):
+            raise AssertionError("notebook rendering did not display one HTML table per call")
+        return nb.shown[0][1]
+    raise InfraError("bad via %r" % via)
+
+
 def call_render(case, rows, via, colorize):
     """One rendering of a fresh frame. Returns the text."""
     from orso.display import ascii_table
@@ -220,6 +424,8 @@ def call_render(case, rows, via, colorize):
         return df.markdown(limit=case["limit"], max_column_width=case["maxcol"])
     if via == "str":
         return str(df)
+    if via in ("repr", "notebook"):
+        return render_obj(df, case, via)
     raise InfraError("bad via %r" % via)
 
 
@@ -259,6 +465,41 @@ def parse_labels(body):
     return out
 
 
+def shown_text(v):
+    """The text a simple value is shown as (None for kinds whose rendering is not `str(value)`-like)."""
+    import math
+
+    if v is None or (isinstance(v, float) and math.isnan(v)):
+        return "null"
+    if isinstance(v, decimal.Decimal) and v.is_nan():
+        return None  # whether a NaN decimal is shown as NaN or as null is not fixed by the statement
+    if isinstance(v, (bool, int, float, decimal.Decimal, str)):
+        return str(v)
+    if isinstance(v, datetime.datetime):
+        return v.strftime("%Y-%m-%d %H:%M:%S")
+    if isinstance(v, datetime.date):
+        return v.strftime("%Y-%m-%d")
+    return None
+
+
+def values_clause(got, rows, maxcol):
+    """'Shows the rows': a value of a shown row whose text fits the column-width limit is printed in full
+    (compared up to outer blanks; printable-ASCII content, table narrower than the display)."""
+    for p in got:
+        if p[0] != "d" or not (1 <= p[1] <= len(rows)):
+            continue
+        row = rows[p[1] - 1]
+        if not row:
+            continue
+        if len(p[2]) != len(row):
+            return "a data line does not have one cell per column"
+        for shown, v in zip(p[2], row):
+            want = shown_text(v)
+            if want is not None and len(want) <= maxcol and len(str(v)) <= maxcol and shown != want.strip():
+                return "a value of a shown row is cut (or altered) although it fits the column-width limit"
+    return None
+
+
 def width_clause(text, dw, footer=False):
     """Printed width of all box lines equal and within the display width (ANSI escapes stripped)."""
     lines = [ANSI.sub("", l) for l in text.split("\n")]
@@ -293,6 +534,22 @@ def substitute(line, colors, on):
     return line
 
 
+def _nonascii(obj, acc):
+    if isinstance(obj, str):
+        acc.update(ch for ch in obj if ord(ch) >= 128)
+    elif isinstance(obj, (bytes, bytearray)):
+        _nonascii(bytes(obj).decode("utf-8", "replace"), acc)
+    elif isinstance(obj, (list, tuple)):
+        for x in obj:
+            _nonascii(x, acc)
+    return acc
+
+
+def char_width(ch):
+    """`character_width` of display.py, from unicodedata (a parameter of the model)."""
+    return 2 if unicodedata.east_asian_width(ch) in ("F", "N", "W") else 1
+
+
 def model_line(case):
     k = case["kind"]
     if k == "sel":
@@ -300,12 +557,22 @@ def model_line(case):
     if k == "render":
         _, types = build_schema(case)
         rows = [[tag_cell(mk(c)) for c in r] for r in case["rows"]]
+        names = [str(n) for n in case["names"]]
+        wide = sorted(_nonascii([names, types, rows], set()))
+        if wide:  # the width of every non-ASCII character of the case goes to the model as a table
+            return "C18 renderw " + wire.line(case["limit"], case["tt"], bool(case.get("lazy")), case["show_types"], case["maxcol"],
+                                              case["dw"], False, names, types, rows, [[ord(ch), char_width(ch)] for ch in wide])
         return "C18 render " + wire.line(case["limit"], case["tt"], bool(case.get("lazy")), case["show_types"],
-                                         case["maxcol"], case["dw"], False, [str(n) for n in case["names"]], types, rows)
+                                         case["maxcol"], case["dw"], False, names, types, rows)
     if k == "decode":
         return "C18 decode " + wire.line(case["bytes"])
-    if k == "total":
+    if k in ("total", "seq"):
         return "echo N"
+    if k == "fmt":
+        kd = kind_of(mk(case["cell"]))
+        if kd is None:
+            return "echo N"
+        return ("C18 fmtkind " if kd[0] == "py" else "C18 fmtnp ") + wire.line(kd[1])
     if k == "markdown":
         rows = [[[mk(c) is None, str(mk(c))] for c in r] for r in case["rows"]]
         return "C18 markdown " + wire.line(case["limit"], case["maxcol"], [str(n) for n in case["names"]], rows)
@@ -365,6 +632,82 @@ def run_sel(case):
     return parsed, clause, text
 
 
+SEQ_BIG = 10**9 + 1000
+SEQ_OPS = ("ascii", "display", "str", "markdown", "repr", "notebook", "append", "materialize", "len")
+
+
+def run_seq(case):
+    """Several uses of ONE frame object: renderings (every path), appends, materialisation.  Returns (clause, trace).
+    Rendering is read-only on an eager frame: every rendering shows the frame as it is at that moment (labels, rows,
+    ellipsis), whatever was rendered before.  A lazily backed frame is consumed by its first rendering (orso's
+    documented behaviour); the first rendering must show the frame, later ones must complete without error."""
+    from orso import DataFrame
+
+    n = case["n"]
+    cur = [(1000 + i,) for i in range(n)]
+    df = DataFrame(rows=(r for r in cur), schema=["c0"]) if case.get("lazy") else DataFrame(rows=list(cur), schema=["c0"])
+    lazy, used, trace = bool(case.get("lazy")), False, []
+    for step, op in enumerate(case["ops"]):
+        try:
+            if op == "append":
+                if lazy:
+                    continue
+                cur.append((SEQ_BIG + len(cur),))  # appended values are wider than everything rendered before
+                df.append(cur[-1])
+                trace.append([op, len(cur)])
+                continue
+            if op == "materialize":
+                df.materialize()
+                if lazy and not used:
+                    lazy = False
+                trace.append([op])
+                continue
+            if op == "len":
+                k = len(df)
+                if lazy and not used:
+                    lazy = False
+                if not lazy and k != len(cur):
+                    return "step %d: len() of the frame changed by rendering" % step, trace
+                trace.append([op, k])
+                continue
+            text = render_obj(df, case, op, colorize=bool(step % 2))
+        except Exception as e:  # noqa
+            return "step %d (%s): rendering raised %s" % (step, op, type(e).__name__), trace + [[op, repr(e)[:200]]]
+        first_lazy_use = lazy and not used
+        if lazy and not used and op in ("markdown", "notebook"):
+            lazy = False  # these materialise the frame before showing it
+        elif lazy and op != "repr":
+            used = True
+        if op in ("markdown", "repr", "notebook"):
+            trace.append([op, "ok"])
+            if op == "repr" and text != "<orso.dataframe>":
+                return "step %d: repr() is not the tag" % step, trace
+            continue
+        if lazy and not first_lazy_use:
+            trace.append([op, "consumed frame: completes"])
+            continue
+        body, lines = body_of(text, footer=(op == "str"))
+        if body is None:
+            return "step %d (%s): the rendering is not a box table" % (step, op), trace + [[op, text]]
+        got = [[p[0], p[1], (int(p[2][0]) - 1000) % (SEQ_BIG - 1000)] if p[0] == "d" and len(p[2]) == 1 and p[2][0].isdigit() else p
+               for p in parse_labels(body)]
+        limit = 10 if op == "str" else case["limit"]
+        tt = True if op != "ascii" else case.get("tt", True)
+        want = spec_lines(len(cur), limit, tt)
+        trace.append([op, len(got)])
+        if got != want:
+            return "step %d (%s): the frame is not shown as it is now (rows / labels / ellipsis)" % (step, op), trace + [[op, text]]
+        if op in ("ascii", "display"):
+            cl = width_clause(text, case.get("dw", 300))
+            if cl:
+                return "step %d (%s): %s" % (step, op, cl), trace + [[op, text]]
+        if lazy:
+            continue
+        if [r[0] for r in df._rows] != [r[0] for r in cur]:
+            return "step %d (%s): rendering changed the rows of an eager frame" % (step, op), trace
+    return None, trace
+
+
 def run_render(case):
     """Returns dict(off=text|None, on=text|None, clause, detail)."""
     rows = [tuple(mk(c) for c in r) for r in case["rows"]]
@@ -397,6 +740,10 @@ def run_render(case):
             if [p[:2] for p in got] != [p[:2] for p in want]:
                 out["clause"] = "labels / ellipsis differ from the true positions of the first and last rows"
                 return out
+            cl = values_clause(got, rows, case["maxcol"])
+            if cl:
+                out["clause"] = cl
+                return out
             # column names and types: only when they fit their column and have no outer blanks
             _, types = build_schema(case)
             hdr = [p.strip() for p in lines[1].split("│")[2:-1]] if case["names"] else []
@@ -416,6 +763,28 @@ def run_render(case):
                         out["clause"] = "a column type is not printed in the type row"
                         return out
     return out
+
+
+def run_fmt(case):
+    """One cell through the real `type_formatter` (a 1 x 1 frame, colour on): (clause, ANSI code the cell starts with)."""
+    from orso import DataFrame
+    from orso.display import ascii_table
+
+    v = mk(case["cell"])
+    try:
+        text = ascii_table(DataFrame(rows=[(v,)], schema=["c"]), limit=1, display_width=5000, max_column_width=case.get("maxcol", 40),
+                           colorize=True, show_types=False)
+    except Exception as e:  # noqa
+        return "rendering raised %s" % type(e).__name__, repr(e)[:200]
+    lines = text.split("\n")
+    if len(lines) != 5 or not lines[3].startswith("│"):
+        return "the rendering is not a box table", text
+    cell = lines[3].split("│", 2)[2][1:]
+    best = ""
+    for rep in (_colors() or {}).values():
+        if cell.startswith(rep) and len(rep) > len(best):
+            best = rep
+    return None, best
 
 
 def run_total(case):
@@ -450,6 +819,9 @@ def valid_case(c):
                 return False
             if c.get("coltypes") is not None and len(c["coltypes"]) != len(c["names"]):
                 return False
+            if c.get("aliases") is not None and (c.get("coltypes") is None or len(c["aliases"]) != len(c["names"])
+                                                 or any(not isinstance(a, str) for al in c["aliases"] for a in al)):
+                return False
             if any(not isinstance(n, str) for n in c["names"]):
                 return False
             if any(len(r) != len(c["names"]) for r in c["rows"]):
@@ -459,7 +831,7 @@ def valid_case(c):
                     mk(x)
             if c.get("via", "ascii") != "ascii" and k == "render" and c["tt"] is not True:
                 return False
-            if c.get("via", "ascii") not in ("ascii", "display", "display_default", "markdown", "str"):
+            if c.get("via", "ascii") not in ("ascii", "display", "display_default", "markdown", "str", "repr", "notebook"):
                 return False
             if k == "render":
                 if not all(model_text_ok(x) for r in c["rows"] for x in r) or not all(model_text_ok(["str", n]) for n in c["names"]):
@@ -468,6 +840,12 @@ def valid_case(c):
             return True
         if k == "decode":
             return isinstance(c["bytes"], bytes)
+        if k == "seq":
+            return (isinstance(c["n"], int) and c["n"] >= 0 and isinstance(c["limit"], int) and c["limit"] >= 1
+                    and all(o in SEQ_OPS for o in c["ops"]) and isinstance(c.get("tt", True), bool))
+        if k == "fmt":
+            mk(c["cell"])
+            return isinstance(c.get("maxcol", 40), int) and c.get("maxcol", 40) >= 1
         if k == "markdown":
             if not (isinstance(c["limit"], int) and c["limit"] >= 1 and c["maxcol"] >= 0):
                 return False
@@ -484,13 +862,13 @@ def valid_case(c):
 
 
 def model_text_ok(spec):
-    """Render cases are sent to the model only with text whose display width the model knows:
-    ASCII, plus U+FFFD from replaced bytes."""
+    """Render cases are sent to the model with any text that can travel on the wire (no lone surrogates); the
+    display width of its non-ASCII characters is sent along (`renderw`)."""
     k = spec[0]
     if k == "str":
-        return all(ord(ch) < 128 for ch in spec[1])
+        return all(not (0xD800 <= ord(ch) <= 0xDFFF) for ch in spec[1])
     if k in ("bytes", "bytearray"):
-        return all(ord(ch) < 128 or ch == "\ufffd" for ch in bytes(spec[1]).decode("utf-8", "replace"))
+        return True
     if k in ("list", "tuple", "set"):
         return all(model_text_ok(x) for x in spec[1])
     if k == "dict":
@@ -513,6 +891,12 @@ def outcome(case):
         return r["clause"], {"off": r["off"], "on": r["on"], "detail": r["detail"]}
     if k == "total":
         return run_total(case), None
+    if k == "seq":
+        cl, trace = run_seq(case)
+        return cl, {"trace": trace if cl else None}
+    if k == "fmt":
+        cl, info = run_fmt(case)
+        return cl, {"detail": info if cl else None}
     if k == "markdown":
         try:
             rows = [tuple(mk(x) for x in r) for r in case["rows"]]
@@ -540,6 +924,8 @@ def frame_shrink(case, still):
             c2 = dict(cur, names=cur["names"][:j] + cur["names"][j + 1 :], rows=[r[:j] + r[j + 1 :] for r in cur["rows"]])
             if cur.get("coltypes") is not None:
                 c2["coltypes"] = cur["coltypes"][:j] + cur["coltypes"][j + 1 :]
+            if cur.get("aliases") is not None:
+                c2["aliases"] = cur["aliases"][:j] + cur["aliases"][j + 1 :]
             tries += 1
             if still(c2):
                 cur, changed = c2, True
@@ -593,6 +979,10 @@ def evaluate(ctx, cases):
             r = run_render(c)
             ctx.case(c, len(c["rows"]) >= 1 and len(c["names"]) >= 1)
             ctx.hit("render:%s:%s" % ("lazy" if c.get("lazy") else "eager", "types" if c["show_types"] else "notypes"))
+            if c.get("coltypes") is not None and (len(set(c["names"])) < len(c["names"]) or c.get("aliases")):
+                ctx.hit("render:colliding-column-names-or-aliases")
+            for ch in _nonascii([c["names"], [[x[1] for x in r if x[0] in ("str", "bytes")] for r in c["rows"]]], set()):
+                ctx.hit("render:char-width-category:" + unicodedata.east_asian_width(ch))
             for row in c["rows"]:
                 for cell in row:
                     ctx.hit("cell:" + cell[0])
@@ -620,6 +1010,31 @@ def evaluate(ctx, cases):
                     ctx.hit("cell:" + cell[0])
             if clause is not None:
                 report_fail(ctx, c, clause)
+        elif k == "seq":
+            clause, trace = run_seq(c)
+            ctx.case(c, c["n"] >= 1 and len(c["ops"]) >= 2)
+            ctx.hit("seq:%s:%d-ops" % ("lazy" if c.get("lazy") else "eager", min(len(c["ops"]), 6)))
+            for a, b in zip(c["ops"], c["ops"][1:]):
+                ctx.hit("seq:%s-then-%s" % (a, b))
+            if clause is not None:
+                report_fail(ctx, c, clause)
+        elif k == "fmt":
+            clause, rep = run_fmt(c)
+            kd = kind_of(mk(c["cell"]))
+            ctx.case(c, True)
+            ctx.hit("fmt:" + (kd[1] if kd else "unmodelled-kind"))
+            if clause is not None:
+                report_fail(ctx, c, clause, model=m)
+                continue
+            if kd is None or colors is None:
+                continue
+            disp = m[0] if kd[0] == "py" else (m[2] if len(m) > 2 else m[1])
+            if kd[0] == "np" and (m[0] is not True or m[1][0] != "ok"):
+                ctx.disagree(c, rep, m, "the extracted numpy_type_mapper does not handle this numpy value, the implementation renders it")
+            elif disp[0] != "ok" or disp[3] is not True:
+                ctx.disagree(c, rep, m, "the extracted if-chain of type_formatter raises / reads a missing attribute where the implementation renders")
+            elif colors.get(disp[2], "") != rep:
+                ctx.disagree(c, rep, m, "the cell is formatted by another branch of type_formatter than the extracted chain selects")
         elif k == "markdown":
             rows = [tuple(mk(x) for x in r) for r in c["rows"]]
             ctx.case(c, len(c["rows"]) >= 1 and len(c["names"]) >= 1)
@@ -795,6 +1210,55 @@ def gen_any_cell(rng, depth=1):
                        ["time", [23, 59, 59, 999999]], ["none"], ["set", [["str", gen_unicode(rng, 3)]]]])
 
 
+def _width_sample():
+    """Characters of every East-Asian-width category (F W H Na N A), spread over the planes, plus the usual suspects:
+    combining marks, zero-width and bidi controls, the box characters and the replacement character."""
+    cats = {}
+    for cp in list(range(0x80, 0x3100)) + list(range(0x3100, 0x30000, 97)) + list(range(0xE0000, 0xE0200, 13)):
+        if 0xD800 <= cp <= 0xDFFF:
+            continue
+        cats.setdefault(unicodedata.east_asian_width(chr(cp)), []).append(chr(cp))
+    out = {}
+    for c, xs in cats.items():
+        step = max(1, len(xs) // 60)
+        out[c] = xs[::step][:60]
+    out["misc"] = list("\u0301\u200b\u200d\u202e\ufeff\ufffd│─↵\u00ad\u2028\u0085\U0001f600\U0001f1e6日本語한ｱＡé")
+    return out
+
+
+WIDTH_SAMPLE = _width_sample()
+
+
+def gen_wide_text(rng, maxlen=10):
+    n = rng.randint(0, maxlen)
+    cats = sorted(WIDTH_SAMPLE)
+    out = []
+    for _ in range(n):
+        r = rng.random()
+        out.append(rng.choice(PRINTABLE) if r < 0.35 else rng.choice(WIDTH_SAMPLE[rng.choice(cats)]))
+    return "".join(out)
+
+
+def widen(rng, case):
+    """Replace the text of a render case by text over every East-Asian-width category."""
+    case["names"] = [gen_wide_text(rng, 8) if rng.random() < 0.6 else n for n in case["names"]]
+
+    def w(cell):
+        if cell[0] == "str" and rng.random() < 0.8:
+            return ["str", gen_wide_text(rng, 12)]
+        if cell[0] == "bytes" and rng.random() < 0.5:
+            return ["bytes", gen_wide_text(rng, 5).encode("utf-8")]
+        if cell[0] in ("list", "tuple"):
+            return [cell[0], [w(x) for x in cell[1]]]
+        if cell[0] == "dict":
+            return ["dict", [[w(a), w(b)] for a, b in cell[1]]]
+        return cell
+
+    case["rows"] = [[w(c) for c in r] for r in case["rows"]]
+    case["wide_text"] = True
+    return case
+
+
 def gen_frame_case(rng, kind):
     ctrl = kind == "render" and rng.random() < 0.35
     ncols = rng.choice([0, 1, 1, 2, 2, 3, 4]) if rng.random() < 0.9 else rng.randint(5, 8)
@@ -829,14 +1293,56 @@ def gen_frame_case(rng, kind):
         "dw": rng.choice([1, 2, 3, 7, 10, 20, 40, 80, 5000, 5000, 5000]),
         "coltypes": [rng.choice(COLTYPES) for _ in range(ncols)] if rng.random() < 0.5 else None,
     }
+    if case["coltypes"] is not None and ncols >= 2 and rng.random() < 0.35:
+        # columns that collide by name: a later column named like an earlier one, or like an earlier one's alias
+        # (positions, not names, decide which type / value is printed where)
+        i, j = sorted(rng.sample(range(ncols), 2))
+        if rng.random() < 0.5:
+            case["names"][j] = case["names"][i]
+        else:
+            case["aliases"] = [[] for _ in range(ncols)]
+            case["aliases"][i] = [case["names"][j]]
+        case["show_types"] = case["show_types"] or rng.random() < 0.7
     if kind == "total":
-        case["via"] = rng.choice(["display", "display", "markdown", "str", "ascii", "display_default"])
+        case["via"] = rng.choice(["display", "display", "markdown", "str", "ascii", "display_default", "repr", "notebook"])
         case["colorize"] = rng.random() < 0.5
     else:
         case["via"] = "ascii" if rng.random() < 0.7 else "display"
         if case["via"] == "display":
             case["tt"] = True
+        if rng.random() < 0.25:
+            widen(rng, case)
     return case
+
+
+EXOTIC = [
+    ["dec", "sNaN"], ["dec", "-sNaN123"], ["dec", "NaN"], ["dec", "-Infinity"], ["dec", "1E+1000"], ["td64", ["NaT", "ns"]], ["td64", ["NaT", "M"]],
+    ["td64", [5, "Y"]], ["td64", [-14, "M"]], ["td64", [10**6, "D"]], ["td64", [2**62, "ns"]], ["td64", [7, "W"]], ["dt64", "NaT"],
+    ["dt64", "2020-02"], ["int", 10**4000], ["int", -(2**64)], ["str", "\ud800"], ["str", "a\ud800b\n\r\x1b[0m\x01OFFm"],
+    ["str", "日本語한\U0001f600​́‮"], ["bytes", b"\xff\xfe\x00\n"], ["bytearray", b"\xed\xa0\x80"],
+    ["list", [["list", [["int", 1]]], ["dict", [[["str", "k"], ["none"]]]], ["bytes", b"\xff"]]],
+    ["dict", [[["str", "k"], ["list", [["int", 1], ["float", float("nan")]]]]]], ["dict", [[["int", 1], ["dict", []]]]], ["tuple", []], ["frozenset", [["int", 1]]],
+    ["list", []], ["dict", []], ["set", []], ["np", "float16", 0.5], ["np", "longdouble", 1.5], ["np", "uint64", 2**64 - 1], ["np", "int8", -128],
+    ["np", "float32", float("nan")], ["np", "float64", float("-inf")], ["np", "bool_", True], ["np", "complex64", 1.5], ["np", "str_", "日本"],
+    ["np", "bytes_", b"\xff"], ["nparr", "int64", []], ["nparr0", "int64", 5], ["nparr0", "uint8", 255],
+    ["nparr", "int64", [["list", [["int", 1], ["int", 2]]], ["list", [["int", 3], ["int", 4]]]]], ["nparr", "object", [["none"], ["str", "x"]]],
+    ["nparr", "U5", [["str", "é"]]], ["mdn", [-13, 40, 86399 * 10**9 + 5]], ["mdn", [0, 0, 0]], ["timedelta", [-999999999, 0, 0]],
+    ["timedelta", [0, 0, 1]], ["time", [23, 59, 59, 999999]], ["date", [1, 1, 1]], ["datetime", [9999, 12, 31, 23, 59, 59, 999999]],
+    ["float", 5e-324], ["float", -0.0], ["float", float("nan")], ["bool", False], ["none"], ["complex", [0.0, -1.0]],
+]
+
+
+def gen_fmt_case(rng):
+    r = rng.random()
+    cell = rng.choice(EXOTIC) if r < 0.35 else gen_any_cell(rng, 1)
+    return {"kind": "fmt", "cell": cell, "maxcol": rng.choice([1, 3, 4, 10, 40, 40, 40])}
+
+
+def gen_seq_case(rng):
+    limit = rng.choice([1, 2, 3, 5, 10])
+    n = rng.choice([0, 1, 2 * limit - 1, 2 * limit, 2 * limit + 1, 2 * limit + 2, 20, 21, 22, 99, 100, 101]) if rng.random() < 0.8 else rng.randint(0, 60)
+    ops = [rng.choice(SEQ_OPS) for _ in range(rng.randint(2, 6))]
+    return {"kind": "seq", "n": n, "limit": limit, "lazy": rng.random() < 0.35, "tt": rng.random() < 0.7, "ops": ops}
 
 
 def gen_markdown_case(rng):
@@ -941,6 +1447,8 @@ def run(ctx):
         "the footer '[ n rows x m columns ]' of str() is not part of the property (it reports 0 rows for a lazily backed frame)",
     ])
     check_width_table(ctx)
+    check_py_facts(ctx)
+    evaluate(ctx, [{"kind": "fmt", "cell": c, "maxcol": 40} for c in EXOTIC])
     evaluate(ctx, [c for c in regression_cases() if valid_case(c)])
     nmax, lmax = ctx.scale((25, 12), (40, 20))
     batch = list(sel_exhaustive(nmax, lmax))
@@ -950,12 +1458,16 @@ def run(ctx):
              "and str(): %d renderings; then random frames" % (nmax, lmax, len(batch)))
     n_sel, n_render, n_total, n_dec = ctx.scale((300, 1100, 1500, 1500), (3000, 12000, 20000, 20000))
     n_md, n_col = ctx.scale((500, 800), (6000, 10000))
+    n_fmt = ctx.scale(1200, 15000)
+    n_seq = ctx.scale(600, 8000)
     rng = ctx.rng
     groups = [
         [sel_random(rng) for _ in range(n_sel)],
         [{"kind": "decode", "bytes": gen_bytes(rng)} for _ in range(n_dec)],
         [gen_colorize_case(rng) for _ in range(n_col)],
         [gen_markdown_case(rng) for _ in range(n_md)],
+        [gen_fmt_case(rng) for _ in range(n_fmt)],
+        [gen_seq_case(rng) for _ in range(n_seq)],
         [gen_frame_case(rng, "render") for _ in range(n_render)],
         [gen_frame_case(rng, "total") for _ in range(n_total)],
     ]
@@ -973,7 +1485,8 @@ def intensify(ctx):
         if ctx.time_left() < 3 or ctx.violations:
             return
         evaluate(ctx, [gen_frame_case(rng, "render") for _ in range(300)] + [sel_random(rng) for _ in range(100)]
-                 + [gen_frame_case(rng, "total") for _ in range(300)] + [gen_markdown_case(rng) for _ in range(100)])
+                 + [gen_frame_case(rng, "total") for _ in range(300)] + [gen_markdown_case(rng) for _ in range(100)]
+                 + [gen_fmt_case(rng) for _ in range(200)] + [gen_seq_case(rng) for _ in range(100)])
 
 
 def replay(ctx, case):
